@@ -26,6 +26,7 @@ type EstOpts struct {
 	RcvBuf  int     // stack-side receive buffer (0 = default)
 	SndBuf  int
 	AckData []byte // passive only: payload carried by the handshake-completing ACK (the caller sends it again)
+	Trailer []byte // bytes put behind the peer's SYN / SYN-ACK options (e.g. end-of-option-list and what a sloppy sender leaves behind it)
 }
 
 // Conn is an established connection between the stack and the scripted peer.
@@ -134,6 +135,7 @@ func (p *Peer) Establish(o EstOpts) (*Conn, string) {
 			}
 		}
 		parse(*syn)
+		opts = append(opts, o.Trailer...)
 		p.Send(rfc.TCP{SrcPort: o.PPort, DstPort: c.LPort, Seq: o.PeerISS, Ack: c.ISS + 1, Flags: rfc.SYN | rfc.ACK, Window: o.Window, RawOpts: opts})
 		ok := false
 		for _, s := range p.TakeFor(c.LPort, o.PPort) {
@@ -163,6 +165,7 @@ func (p *Peer) Establish(o EstOpts) (*Conn, string) {
 		opts = append(opts, 1, 1)
 		opts = append(opts, rfc.OptTS(c.tsval, 0)...)
 	}
+	opts = append(opts, o.Trailer...)
 	p.Send(rfc.TCP{SrcPort: o.PPort, DstPort: o.LPort, Seq: o.PeerISS, Flags: rfc.SYN, Window: o.Window, RawOpts: opts})
 	var sa *Seg
 	for _, s := range p.TakeFor(o.LPort, o.PPort) {
